@@ -134,7 +134,7 @@ def validate(name, trace_path, nproc=8):
 
 
 MUTATING = {'AddResource', 'AddDataset', 'AddKey', 'InsertData', 'Annotate', 'RemoveAnnotation', 'RemoveResource',
-            'RemoveDataset', 'RemoveData', 'RemoveKey', 'StripAnnotationIds', 'StripDataIds', 'ShrinkToFit', 'RoundTrip'}
+            'RemoveDataset', 'RemoveData', 'RemoveKey', 'StripAnnotationIds', 'StripDataIds', 'ShrinkToFit', 'RoundTrip', 'ProtectText'}
 
 
 # ---------------------------------------------------------------------------------------------
@@ -214,6 +214,8 @@ def attribute(m, diffs):
     if exp.get('readonly'):
         return {READONLY_OWNER.get(ev, 'C01')}
     if exp.get('roundtrip'):
+        if rec['a'].get('edit', {}).get('has'):
+            return {'C18'}
         return {dict(json='C05', cbor='C11', csv='C15')[rec['a']['format']]}
     expected_err = exp.get('outcome') in ('err', 'either')
     if expected_err and ev not in REMOVALS:
@@ -246,6 +248,8 @@ def attribute(m, diffs):
                 props.add('C01')
             if p in ('outcome', 'result', 'projection') or ((p.startswith('st.anns') or p.startswith('st.res')) and not p.endswith('.leaves[*].m')):
                 props.add('C01')
+    if ev == 'ProtectText':
+        props.add('C18')
     if not props:
         props.add('C01')
     return props
@@ -253,7 +257,7 @@ def attribute(m, diffs):
 
 READONLY_OWNER = {'Lookup': 'C03', 'TextSel': 'C04', 'AnnTextOf': 'C04', 'OffsetReport': 'C04', 'Utf8Byte': 'C12',
                   'ByteToChar': 'C12', 'TextOp': 'C07', 'TestRelation': 'C13', 'RelatedText': 'C06',
-                  'TestRelationRow': 'C13', 'RelatedRow': 'C06'}
+                  'TestRelationRow': 'C13', 'RelatedRow': 'C06', 'Validate': 'C18'}
 
 
 def _has_offset(t):
@@ -289,6 +293,10 @@ def arg_features(rec):
     elif ev == 'RoundTrip':
         f.append('format=' + a['format'])
         f.append('layout=' + a['layout'])
+        if a.get('edit', {}).get('has'):
+            f.append('edit=' + a['edit']['kind'])
+    elif ev == 'ProtectText':
+        f.append('mode=' + a['mode'])
     elif ev == 'RelatedRow':
         f.append('via=' + a['via'])
         f.append('A=%d' % len(a['A']))
